@@ -15,12 +15,12 @@ from ..symx import Expander
 from ..anf import R, Unsupported
 from .. import anf, units
 from ..units import Lin, Log, Tup, TOP, BOOL, num
-from .common import memo_obligations, dtype_hazard_obligations, struct_ob, formula_ob, guard, last_return, U
+from .common import stored_state_obligations, memo_obligations, dtype_hazard_obligations, struct_ob, formula_ob, guard, last_return, U
 from ..report import AnalysisError, Ob
 from ..term import Resolver, pmatch, find_all, abstract, anf_of
 
 REL = "inference/pdf/kde.py"
-FLOORS = {"every-group-stored": 2, "float-arithmetic": 1, "region-provenance": 2, "kernel-form": 2, "region-tables": 3, "truncation-bound": 1, "units": 3, "units-result-types": 3}
+FLOORS = {"sample-stays-sorted": 8, "every-group-stored": 2, "float-arithmetic": 1, "region-provenance": 2, "kernel-form": 2, "region-tables": 3, "truncation-bound": 1, "units": 3, "units-result-types": 3}
 
 EXPECTED = {"__call__": "Lin(-1,0)", "cdf": "Lin(0,0)", "attr:h": "Lin(1,0)", "attr:mode": "Lin(1,1)"}
 
@@ -373,6 +373,14 @@ def run(prog, tier):
         obs.append(_every_group_stored(prog, ci, ci.methods[mname]))
 
     obs.extend(memo_obligations(prog, "cache-key", [prog.cls("GaussianKDE")]))
+
+    # the region tables, the data range and both evaluators rely on self.sample being the sorted sample: after the constructor
+    # sorted it, no method re-orders / overwrites it through an alias or view
+    kde = prog.cls("GaussianKDE")
+    sites = [(kde, fn, {fn.args.args[0].arg: "self"}, {"self.sample", "self.sample[]"}) for m, fn in kde.methods.items()
+             if fn.args.args and not any(U(d) in ("staticmethod", "classmethod") for d in fn.decorator_list)]
+    obs.extend(stored_state_obligations(prog, "sample-stays-sorted", sites,
+                                        "the sorted sample every look-up table was (or will be) built from is re-ordered or overwritten", scalar_ok=False))
 
     meta = {
         "explanation": "Normal-form equality of the pdf / cdf summands with the Gaussian kernel and its integral for bandwidth h "
